@@ -104,6 +104,7 @@ class SymBuffer2:
         self.ncols = ncols
         self.dtype = np.dtype(dtype).name
         self.assign = {}  # col -> (n, SymCol)
+        self.src = {}  # col -> (dtype name, (n64, n32) rounding operations) of the assigned values
         self.problems = []
 
     def __setitem__(self, key, col):
@@ -113,13 +114,16 @@ class SymBuffer2:
         n = R.lift(rows.stop)
         ln = R.lift(symlen(col))
         self.assign[int(j)] = (n, col)
+        self.src[int(j)] = (getattr(col, '_src_dtype', None), getattr(col, '_src_rnd', None))
         SHAPE_OBLIGATIONS.append(('buffer[:n, i] = values: n == len(values)', n, ln))
 
     def __getitem__(self, key):
         if not (isinstance(key, slice) and key.start is None and key.step is None):
             raise C.Unsupported('buffer read pattern')
         n = R.lift(key.stop)
-        return SymArray(n, self.ncols, self.dtype, origin='pix-chunk', cols=dict(self.assign))
+        out = SymArray(n, self.ncols, self.dtype, origin='pix-chunk', cols=dict(self.assign))
+        out.src = dict(self.src)
+        return out
 
 
 SHAPE_OBLIGATIONS: list = []
